@@ -46,6 +46,14 @@ type c09In struct {
 	Regs     []c09Reg `json:"regs"`
 	Perm     []int    `json:"perm"` // second server registers Regs[Perm[0]], Regs[Perm[1]], ...
 	Sub      bool     `json:"sub"`
+	Hist     []c09Op  `json:"hist,omitempty"` // history run on one further server, from NewServer()
+}
+
+// c09Op is one step of a history on ONE server.
+type c09Op struct {
+	Op  string  `json:"op"` // reg set_service set_server_id set_pv desc_pipe desc_http hash call
+	Reg *c09Reg `json:"reg,omitempty"`
+	S   string  `json:"s,omitempty"` // setter value / called method name
 }
 
 // ---- the family of registered types, with the schemas they must advertise ----
@@ -381,7 +389,10 @@ func c09Pipe(s *vgirpc.Server) (*c09Resp, bool) {
 }
 
 func c09HTTP(s *vgirpc.Server) (int, *c09Resp, bool) {
-	h := vgirpc.NewHttpServer(s)
+	return c09HTTPWith(vgirpc.NewHttpServer(s))
+}
+
+func c09HTTPWith(h *vgirpc.HttpServer) (int, *c09Resp, bool) {
 	req := httptest.NewRequest(http.MethodPost, "/__describe__", bytes.NewReader(c09Request()))
 	req.Header.Set("Content-Type", "application/vnd.apache.arrow.stream")
 	rec := httptest.NewRecorder()
@@ -705,6 +716,215 @@ func c09Sub(in c09In) *c09Resp {
 	return line.Obs.Pipe
 }
 
+// ---- histories ------------------------------------------------------------------------
+
+func c09IsMut(o c09Op) bool {
+	switch o.Op {
+	case "reg", "set_service", "set_server_id", "set_pv":
+		return true
+	}
+	return false
+}
+
+func c09ApplyMut(s *vgirpc.Server, o c09Op) {
+	switch o.Op {
+	case "reg":
+		c09Register(s, *o.Reg)
+	case "set_service":
+		s.SetServiceName(o.S)
+	case "set_server_id":
+		s.SetServerID(o.S)
+	case "set_pv":
+		s.SetProtocolVersion(o.S)
+	}
+}
+
+// c09Fresh is a brand-new server that is given only the mutators of ops.
+func c09Fresh(ops []c09Op) *vgirpc.Server {
+	s := vgirpc.NewServer()
+	for _, o := range ops {
+		if c09IsMut(o) {
+			c09ApplyMut(s, o)
+		}
+	}
+	return s
+}
+
+// c09Call sends one request for method name over the pipe transport (empty
+// parameter batch) and discards whatever is answered.
+func c09Call(s *vgirpc.Server, name string) {
+	var buf, out bytes.Buffer
+	empty := arrow.NewSchema(nil, nil)
+	meta := arrow.NewMetadata([]string{vgirpc.MetaMethod, vgirpc.MetaRequestVersion}, []string{name, vgirpc.ProtocolVersion})
+	rec := array.NewRecordBatchWithMetadata(empty, nil, 0, meta)
+	defer rec.Release()
+	w := ipc.NewWriter(&buf, ipc.WithSchema(empty))
+	if err := w.Write(rec); err != nil {
+		panic(err)
+	}
+	if err := w.Close(); err != nil {
+		panic(err)
+	}
+	s.Serve(bytes.NewReader(buf.Bytes()), &out)
+}
+
+func (p *c09Pool) op(o c09Op) string {
+	switch o.Op {
+	case "reg":
+		return App("C09.OReg", p.reg(*o.Reg))
+	case "set_service":
+		return App("C09.OSetService", p.b(o.S))
+	case "set_server_id":
+		return App("C09.OSetServerID", p.b(o.S))
+	case "set_pv":
+		return App("C09.OSetPV", p.b(o.S))
+	case "desc_pipe":
+		return "C09.ODescPipe"
+	case "desc_http":
+		return "C09.ODescHTTP"
+	case "hash":
+		return "C09.OHash"
+	case "call":
+		return App("C09.OCall", p.b(o.S))
+	}
+	panic("c09: op " + o.Op)
+}
+
+func (p *c09Pool) payload(r *c09Resp) (term string, digest string) {
+	if r == nil {
+		return "None", ""
+	}
+	chunks := c09Payload(r)
+	sum := sha256.Sum256(bytes.Join(chunks, nil))
+	return "(Some (concat " + ListOf(chunks, func(c []byte) string { return p.b(string(c)) }) + "))", hex.EncodeToString(sum[:])
+}
+
+// c09RunHist runs the history on one server and renders the per-op observations.
+func c09RunHist(ops []c09Op, pool *c09Pool, o *c09Obs) (term string, tags []string, nontrivial bool) {
+	if len(ops) == 0 {
+		return "[]", nil, false
+	}
+	s := vgirpc.NewServer()
+	var httpSrv *vgirpc.HttpServer
+	var regs []c09Reg
+	var terms []string
+	tagset := map[string]bool{"hist": true}
+	computed, changedSince, describes := false, false, 0
+	names := map[string]bool{}
+	// describe of a brand-new server per surface version (= number of mutators among ops[:k])
+	type freshT struct {
+		r  *c09Resp
+		ok bool
+	}
+	freshCache := map[int]freshT{}
+	freshAt := func(k int) (*c09Resp, bool) {
+		v := 0
+		for _, m := range ops[:k] {
+			if c09IsMut(m) {
+				v++
+			}
+		}
+		if f, ok := freshCache[v]; ok {
+			return f.r, f.ok
+		}
+		r, ok := c09Pipe(c09Fresh(ops[:k]))
+		freshCache[v] = freshT{r, ok}
+		return r, ok
+	}
+	for i, op := range ops {
+		h := c09HObs{Op: op.Op}
+		switch op.Op {
+		case "reg", "set_service", "set_server_id", "set_pv":
+			c09ApplyMut(s, op)
+			if op.Op == "reg" {
+				regs = append(regs, *op.Reg)
+				if names[op.Reg.Name] {
+					tagset["hist-reregister"] = true
+				}
+				names[op.Reg.Name] = true
+			}
+			if computed {
+				changedSince = true
+			}
+			terms = append(terms, "C09.BNone")
+		case "desc_pipe", "desc_http":
+			var ok bool
+			h.Status = 200
+			if op.Op == "desc_pipe" {
+				h.Resp, ok = c09Pipe(s)
+			} else {
+				if httpSrv == nil { // one HttpServer for the whole history, like a deployment
+					httpSrv = vgirpc.NewHttpServer(s)
+				}
+				h.Status, h.Resp, ok = c09HTTPWith(httpSrv)
+			}
+			var okF bool
+			h.Fresh, okF = freshAt(i)
+			h.FrameOK = ok && okF
+			pl, digest := pool.payload(h.Resp)
+			if h.Resp != nil {
+				h.Hash = c09MetaGet(h.Resp, vgirpc.MetaProtocolHash)
+				h.HashOK = digest == h.Hash
+				h.DecodeOK = c09DecodeOK(h.Resp, regs)
+			}
+			terms = append(terms, App("C09.BDesc", Z(int64(h.Status)), pool.resp(h.Resp), pool.resp(h.Fresh), pl,
+				Bool(h.HashOK), Bool(h.FrameOK), Bool(h.DecodeOK)))
+			describes++
+			if changedSince {
+				tagset["hist-describe-after-change"] = true
+				nontrivial = true
+			}
+			computed = true
+			tagset["hist-"+op.Op] = true
+		case "hash":
+			h.Hash = s.ProtocolHash()
+			h.PreimageAt = -1
+			pre := "None"
+			// which surface does the returned digest belong to? latest first
+			for k := i; k >= 0; k-- {
+				if k < i && !c09IsMut(ops[k]) {
+					continue // same surface as k+1
+				}
+				r, _ := freshAt(k)
+				t, digest := pool.payload(r)
+				if digest == h.Hash {
+					pre, h.PreimageAt = t, k
+					break
+				}
+			}
+			if h.PreimageAt >= 0 && h.PreimageAt < i {
+				for _, m := range ops[h.PreimageAt:i] {
+					if c09IsMut(m) {
+						tagset["hist-accessor-stale"] = true
+					}
+				}
+			}
+			terms = append(terms, App("C09.BHash", pre))
+			computed = true
+			tagset["hist-hash"] = true
+		case "call":
+			c09Call(s, op.S)
+			if op.S == "__describe__" || op.S == "__transport_options__" {
+				tagset["hist-call-framework-name"] = true // answered before the method lookup
+			} else if names[op.S] {
+				computed = true
+				tagset["hist-call-registered"] = true
+			} else {
+				tagset["hist-call-unknown"] = true
+			}
+			terms = append(terms, "C09.BNone")
+		default:
+			panic("c09: op " + op.Op)
+		}
+		o.Hist = append(o.Hist, h)
+	}
+	tagset[fmt.Sprintf("hist-describes=%d", describes)] = true
+	for t := range tagset {
+		tags = append(tags, t)
+	}
+	return List(terms), tags, nontrivial
+}
+
 // ---- run ---------------------------------------------------------------------------
 
 type c09Obs struct {
@@ -719,6 +939,21 @@ type c09Obs struct {
 	FrameOK    bool     `json:"frame_ok"`
 	DecodeOK   bool     `json:"decode_ok"`
 	AccessorOK bool     `json:"accessor_ok"`
+	Hist       []c09HObs `json:"hist,omitempty"`
+}
+
+// c09HObs is what one history step showed.
+type c09HObs struct {
+	Op       string   `json:"op"`
+	Status   int      `json:"status,omitempty"`
+	Resp     *c09Resp `json:"resp,omitempty"`
+	Fresh    *c09Resp `json:"fresh,omitempty"` // brand-new server given only the mutators so far
+	Hash     string   `json:"hash,omitempty"`  // digest reported (describe) / returned (ProtocolHash())
+	HashOK   bool     `json:"hash_ok,omitempty"`
+	FrameOK  bool     `json:"frame_ok,omitempty"`
+	DecodeOK bool     `json:"decode_ok,omitempty"`
+	// for ProtocolHash(): number of leading ops whose surface hashes to the returned digest, -1 none
+	PreimageAt int `json:"preimage_at"`
 }
 
 func c09Regs2(in c09In) []c09Reg {
@@ -767,11 +1002,12 @@ func c09Run(in c09In) CaseOut {
 		sub = "(Some " + pool.resp(o.Sub) + ")"
 	}
 
+	histObs, histTags, histNontrivial := c09RunHist(in.Hist, pool, &o)
 	coqIn := App("C09.Build_input",
 		App("C09.Build_cfg", pool.b(in.Service), pool.b(in.ServerID), pool.b(in.PV)),
-		ListOf(in.Regs, pool.reg), ListOf(regs2, pool.reg), Bool(in.Sub))
+		ListOf(in.Regs, pool.reg), ListOf(regs2, pool.reg), Bool(in.Sub), ListOf(in.Hist, pool.op))
 	coqObs := App("C09.Build_obs", pool.resp(o.Pipe), Z(int64(o.HTTPStatus)), pool.resp(o.HTTP), pool.resp(o.Alt),
-		sub, payload, Bool(o.HashOK), Bool(o.FrameOK), Bool(o.DecodeOK), Bool(o.AccessorOK))
+		sub, payload, Bool(o.HashOK), Bool(o.FrameOK), Bool(o.DecodeOK), Bool(o.AccessorOK), histObs)
 
 	// tags
 	tags := []string{fmt.Sprintf("n=%d", len(in.Regs))}
@@ -813,8 +1049,9 @@ func c09Run(in c09In) CaseOut {
 	if in.Service == "" {
 		tags = append(tags, "default-protocol-name")
 	}
+	tags = append(tags, histTags...)
 	sort.Strings(tags)
-	return CaseOut{Coq: pool.wrap(Pair(coqIn, coqObs)), Tags: tags, Nontrivial: len(in.Regs) >= 2, Obs: o}
+	return CaseOut{Coq: pool.wrap(Pair(coqIn, coqObs)), Tags: tags, Nontrivial: len(in.Regs) >= 2 || histNontrivial, Obs: o}
 }
 
 func c09IsPerm(p []int, n int) bool {
@@ -900,11 +1137,37 @@ func c09Gen(r *rand.Rand, n int, tier string) []c09In {
 	add(c09In{Service: "s", Regs: []c09Reg{{Kind: "unary", Name: "a", P: 1, R: 0}, {Kind: "unary", Name: "b", P: 1, R: 1}}, Perm: []int{0, 0}})
 	add(c09In{Service: "s", Regs: []c09Reg{{Kind: "unary", Name: "a", P: 1, R: 0}, {Kind: "unary", Name: "b", P: 1, R: 1}}, Perm: []int{1}})
 
+	// ---- histories on one server: boundary shapes first
+	rg := func(kind, name string, p, x int) c09Op {
+		return c09Op{Op: "reg", Reg: &c09Reg{Kind: kind, Name: name, P: p, R: x, Out: x, Hdr: x % 3}}
+	}
+	dp, dh, hs := c09Op{Op: "desc_pipe"}, c09Op{Op: "desc_http"}, c09Op{Op: "hash"}
+	call := func(n string) c09Op { return c09Op{Op: "call", S: n} }
+	set := func(op, v string) c09Op { return c09Op{Op: op, S: v} }
+	for _, h := range [][]c09Op{
+		{rg("unary", "alpha", 1, 0), dp, rg("unary", "beta", 2, 1), dp, dh},                    // describe; register one more; describe again
+		{rg("unary", "alpha", 1, 0), dh, rg("producer", "beta", 2, 1), dh, dp},                 // the same, HTTP first
+		{rg("unary", "a", 0, 0), dp, set("set_service", "renamed"), dp, dh},                    // service name between
+		{rg("unary", "m", 1, 0), dp, rg("producer_h", "m", 2, 1), dp, dh},                      // re-register a name with another signature
+		{rg("unary_void", "a", 0, 0), hs, rg("unary", "b", 1, 2), dp, hs, dh},                  // ProtocolHash() first
+		{rg("unary_void", "a", 0, 0), call("a"), rg("exchange", "b", 1, 2), dp, dh, hs},        // a dispatched call first
+		{dp, rg("dynamic_h", "a", 3, 1), dp, dh},                                               // describe the empty surface first
+		{rg("unary", "a", 1, 0), dp, set("set_pv", "1.0.0"), set("set_server_id", "s1"), dp, dh}, // metadata-only change: digest stays
+		{call("nope"), hs, rg("unary", "a", 1, 0), hs, dp},                                     // unknown method does not compute the digest
+		{set("set_service", "x"), rg("unary", "a", 1, 0), dh, set("set_service", ""), dh, rg("unary", "a", 1, 0), dp, dp}, // back to default name; identical re-registration
+	} {
+		out = append(out, c09In{Perm: []int{}, Hist: h})
+	}
+
 	subEvery := 40
 	if tier == "thorough" {
 		subEvery = 8
 	}
 	for len(out) < n {
+		if r.Intn(100) < 40 {
+			out = append(out, c09In{Perm: []int{}, Hist: c09RandHist(r)})
+			continue
+		}
 		in := c09In{
 			Service:  []string{"", "svc", "Svc", "my service|x", "GoRpcServer", "s\x1f\x1e"}[r.Intn(6)],
 			ServerID: []string{"", "", "srv-01", "x"}[r.Intn(4)],
@@ -951,10 +1214,63 @@ func c09Gen(r *rand.Rand, n int, tier string) []c09In {
 	return out
 }
 
+// c09RandHist: 3-14 ops; registrations (a quarter re-register a name already
+// used), setters, describes over both transports, ProtocolHash() and calls.
+func c09RandHist(r *rand.Rand) []c09Op {
+	k := 3 + r.Intn(12)
+	var ops []c09Op
+	var used []string
+	callable := map[string]bool{} // names currently bound to a unary method over struct{} params
+	for i := 0; i < k; i++ {
+		x := r.Intn(100)
+		switch {
+		case x < 35 || i == 0:
+			nm := c09Names[r.Intn(len(c09Names))]
+			if len(used) > 0 && r.Intn(4) == 0 {
+				nm = used[r.Intn(len(used))]
+			}
+			g := c09RandReg(r, nm)
+			if r.Intn(3) == 0 {
+				g.Kind, g.P = []string{"unary", "unary_void"}[r.Intn(2)], 0
+			}
+			used = append(used, nm)
+			callable[nm] = (g.Kind == "unary" || g.Kind == "unary_void") && g.P == 0
+			ops = append(ops, c09Op{Op: "reg", Reg: &g})
+		case x < 45:
+			ops = append(ops, c09Op{Op: "set_service", S: []string{"", "svc", "other", "s|1"}[r.Intn(4)]})
+		case x < 50:
+			ops = append(ops, c09Op{Op: "set_server_id", S: []string{"", "id-1", "id-2"}[r.Intn(3)]})
+		case x < 55:
+			ops = append(ops, c09Op{Op: "set_pv", S: []string{"", "1.0.0", "2.1.0"}[r.Intn(3)]})
+		case x < 72:
+			ops = append(ops, c09Op{Op: "desc_pipe"})
+		case x < 84:
+			ops = append(ops, c09Op{Op: "desc_http"})
+		case x < 92:
+			ops = append(ops, c09Op{Op: "hash"})
+		default:
+			var cs []string
+			for n, ok := range callable {
+				if ok {
+					cs = append(cs, n)
+				}
+			}
+			sort.Strings(cs)
+			nm := "no-such-method"
+			if len(cs) > 0 && r.Intn(4) != 0 {
+				nm = cs[r.Intn(len(cs))]
+			}
+			ops = append(ops, c09Op{Op: "call", S: nm})
+		}
+	}
+	ops = append(ops, c09Op{Op: []string{"desc_pipe", "desc_http"}[r.Intn(2)]})
+	return ops
+}
+
 func init() {
 	vgirpc.VerifC09AddConsts(func() []vgirpc.VerifConst {
 		return []vgirpc.VerifConst{{Name: "c09_pool", Kind: "list", List: c09Family()}}
 	})
-	Register("C09", "boundary surfaces first (empty, one method of each of the 7 registration functions with and without header schema, every parameter/result type, duplicate names, all ordering-edge names), then random surfaces of 0-16 registrations over 20 names x 7 kinds x 6 parameter types x 6 result types x 5 output x 3 header schemas (+nil), about a fifth with repeated names (last registration wins), each served by two real Servers in two registration orders over pipe and HTTP (and a fresh process for a sample); non-trivial = at least 2 registrations; distinct = distinct input JSON",
+	Register("C09", "boundary surfaces first (empty, one method of each of the 7 registration functions with and without header schema, every parameter/result type, duplicate names, all ordering-edge names), then random surfaces of 0-16 registrations over 20 names x 7 kinds x 6 parameter types x 6 result types x 5 output x 3 header schemas (+nil), about a fifth with repeated names (last registration wins), each served by two real Servers in two registration orders over pipe and HTTP (and a fresh process for a sample); 40% of the random cases are HISTORIES on one server (10 boundary shapes first: describe / register one more / describe again over pipe and HTTP, service name set between, a name re-registered with another signature, ProtocolHash() or a dispatched call before the change, ...; then 4-15 random ops: registrations, setters, describes, ProtocolHash(), calls) where every describe is also compared with a brand-new server given the same registrations and setters; non-trivial = at least 2 registrations, or a history with a describe after a surface change that follows the first digest computation; distinct = distinct input JSON",
 		c09Gen, c09Run)
 }
